@@ -533,6 +533,7 @@ type Contract struct {
 	Pure       bool // no heap effects at all (no allocation either)
 	Lemmas     []string // auto lemmas assumed (as quantified facts) while verifying this function
 	Allocates  []string
+	NilRecv    bool // the method tolerates a nil receiver: not assumed non-nil, not checked at call sites
 	StoreLinks bool // also introduce post-store reads from pre-store reads (quantifier instantiation aid)
 	Where      string
 }
@@ -587,7 +588,7 @@ var clauseKW = map[string]bool{
 	"func": true, "ghost": true, "lemma": true, "axiom": true, "requires": true, "ensures": true,
 	"modifies": true, "invariant": true, "decreases": true, "loop": true, "floats": true,
 	"inline": true, "trusted": true, "panics": true, "at": true, "use": true, "obligations": true,
-	"induction": true, "nosafety": true, "withinlen": true, "allocates": true, "trigger": true, "lemmas": true, "unreachable": true, "pure": true, "package": true, "opaque": true, "storelinks": true,
+	"induction": true, "nosafety": true, "withinlen": true, "allocates": true, "trigger": true, "lemmas": true, "unreachable": true, "pure": true, "package": true, "opaque": true, "storelinks": true, "nilrecv": true,
 }
 
 // ParseSpecText parses contract text (already stripped of //@ prefixes); pkg is the
@@ -865,6 +866,10 @@ func (ss *SpecSet) ParseSpecText(lines []string, wheres []string, pkg string) er
 		case "storelinks":
 			if cur != nil {
 				cur.StoreLinks = true
+			}
+		case "nilrecv":
+			if cur != nil {
+				cur.NilRecv = true
 			}
 		case "panics":
 			t := strings.TrimSpace(strings.TrimPrefix(strings.TrimSpace(rc.text), "when"))
